@@ -152,8 +152,9 @@ Fail(p, clause, info) ==
 Reserved == Wild \cup {"signal-W"}
 
 \* where named result n can be read in unit u: its anchor, or - when the producer is itself a constant combinator - that combinator
-AnchorsOf(u, n) == ByRole(u, "anchor", n)
-ConstsOf(u, n) == ByRole(u, "const", n) \cup ByRole(u, "input", n)
+\* an anchor is an EMPTY constant combinator labelled with the name (the wording of the label's remark is not relied on)
+AnchorsOf(u, n) == {e \in Ids(u) : KindT[u][e] = "C" /\ Len(FilterSeq(u, e)) = 0 /\ Desc(u, e).var = n /\ Desc(u, e).role # "computing"}
+ConstsOf(u, n) == {e \in Ids(u) : KindT[u][e] = "C" /\ Len(FilterSeq(u, e)) > 0 /\ Desc(u, e).var = n /\ Desc(u, e).role # "computing"}
 \* observation point of n in unit u: <<entity, isConst>> or <<0, FALSE>> when n is not (uniquely) exposed
 ObsPoint(u, n) == LET A == AnchorsOf(u, n)  K == ConstsOf(u, n) IN
                   IF Cardinality(A) = 1 THEN <<CHOOSE e \in A : TRUE, FALSE>>
@@ -217,6 +218,24 @@ CheckTwin(p, n, w1, o1, inp1, o2, inp2) ==
               s2 == IF ev.free THEN Desc(u2, p2[1]).sig ELSE ev.t
               x1 == ReadAt(u1, p1, s1, o1, inp1)  x2 == ReadAt(u2, p2, s2, o2, inp2)
           IN x1 = x2 \/ Fail(p, "R2_equal", [name |-> n, val |-> v_val, first |-> x1, second |-> x2])
+
+(* C20, static part: labels.  The combinator producing a named result carries the variable's name and source line;  *)
+(* every typed constant declaration appears as a constant combinator labelled with its name, value and line.          *)
+TopIdx(ss, n) == CHOOSE i \in DOMAIN ss : ss[i].k \in {"let", "in"} /\ ss[i].n = n
+CheckLabels(p, k) ==
+  LET u == UnitsOf(p)[k]  ss == StmtsOf(p, k) IN
+  /\ \A n \in OutNames(ss) :
+        LET P == {e \in Ids(u) : Desc(u, e).var = n /\ Desc(u, e).role \in {"producer", "const", "input"}}
+            ln == LineOf(ss, TopIdx(ss, n))
+        IN (\E e \in P : Desc(u, e).line = ln)
+           \/ Fail(p, "C20_label", [unit |-> k, name |-> n, line |-> ln, producers |-> {<<Desc(u, e).raw>> : e \in P}])
+  /\ \A i \in {i \in DOMAIN ss : ss[i].k = "in" /\ ss[i].t # ""} :
+        LET n == ss[i].n
+            K == {e \in Ids(u) : KindT[u][e] = "C" /\ Desc(u, e).var = n /\ Desc(u, e).role = "input"}
+        IN (\E e \in K : Desc(u, e).line = LineOf(ss, i) /\ Get(Desc(u, e), "value", 0) = ss[i].dv /\ Desc(u, e).sig = ss[i].t
+                          /\ NCT[u][e] = Single(u, ss[i].t, ss[i].dv))
+           \/ Fail(p, "C20_input", [unit |-> k, name |-> n, line |-> LineOf(ss, i), found |-> {<<Desc(u, e).raw>> : e \in K}])
+ASSUME \A p \in PIDs : \A k \in DOMAIN UnitsOf(p) : (~Active("C20_label") /\ ~Active("C20_input")) \/ ~WiresOK(UnitsOf(p)[k]) \/ CheckLabels(p, k)
 
 (* ------------------------------ behaviour ------------------------------ *)
 MaxTick(p) == LET n == Len(Ents(U(p))) + (IF HasTwin(p) THEN Len(Ents(Recs[p].u2)) ELSE 0) IN n + 3
@@ -303,7 +322,12 @@ Next == Tick \/ ChangeInput
 Spec == Init /\ [][Next]_vars
 
 (* ------------------------------ monitors ------------------------------- *)
-Supported(p) == \A k \in DOMAIN UnitsOf(p) : UnsupT[UnitsOf(p)[k]] = {} /\ WiresOK(UnitsOf(p)[k])
+\* every input the program uses must be drivable: exactly one constant combinator labelled as that input.
+\* A record where this fails is NOT judged (DESIGN 6.7: unobservable; C20_input reports it).
+Drivable(p, k) == LET u == UnitsOf(p)[k]  ss == StmtsOf(p, k) IN
+   \A n \in InNames(ss) \cap Consumed(ss) : Cardinality({e \in Ids(u) : Desc(u, e).role = "input" /\ Desc(u, e).var = n}) = 1
+NotJudgedT == [p \in PIDs |-> UNION {UnsupT[UnitsOf(p)[k]] \cup (IF WiresOK(UnitsOf(p)[k]) /\ Drivable(p, k) THEN {} ELSE {"input-not-found"}) : k \in DOMAIN UnitsOf(p)}]
+Supported(p) == NotJudgedT[p] = {} /\ \A k \in DOMAIN UnitsOf(p) : WiresOK(UnitsOf(p)[k])
 CountInit == (v_tick = 0 /\ ~v_settled) => Bump(1, v_pid)
 AnyAmb == \E i \in DOMAIN v_mem : v_mem[i].amb
 JudgeUnit(p, k, w) ==
@@ -326,6 +350,6 @@ Judge ==
 Settles == (v_tick = MaxTick(v_pid) /\ ~v_settled) => Fail(v_pid, "C01_settles", [val |-> v_val, ticks |-> v_tick])
 
 Summary == \A p \in PIDs : PrintT(<<"SUMMARY", Recs[p].id, TLCGet(Reg(1, p)), TLCGet(Reg(0, p)), TLCGet(Reg(2, p)), TLCGet(Reg(3, p)),
-                                    Cardinality(OutNamesT[p]), UNION {UnsupT[UnitsOf(p)[k]] : k \in DOMAIN UnitsOf(p)},
+                                    Cardinality(OutNamesT[p]), NotJudgedT[p],
                                     TLCGet(Reg(5, p)), TLCGet(Reg(6, p))>>)
 =============================================================================
